@@ -243,7 +243,7 @@ PROPS['C18'] = dict(
 
 PROPS['C16'] = dict(
     level='exploration',
-    rule='choice tape -> one of: (tf) orders num_n, den_n in 0..8, integer coefficients |c|<=3, two integer input sequences |x|<=5 of length <= 24, a zero() position, scalars and a delay: outputs compared exactly with an '
+    rule='two builds: a_real = double and float (exactness limit 2^52 resp. 2^23, ulps of the type; the strict-interior window of the generators is [1e-6, 1e5] in the float build, where 1 - 1/(2 pi 1e12) is not representable). choice tape -> one of: (tf) orders num_n, den_n in 0..8, integer coefficients |c|<=3, two integer input sequences |x|<=5 of length <= 24, a zero() position, scalars and a delay: outputs compared exactly with an '
          '__int128 reference recurrence while every partial sum stays below 2^52, zero+rerun compared with a freshly initialised filter, linearity and time invariance exact on integers, delay lines in exact-size dirty heap blocks, a new numerator or denominator (0..8 coefficients) installed on the live filter with a_tf_set_num / a_tf_set_den (replaced side restarts from zero, the other side keeps its history), the C++ member init/set_num/set_den/call operator/zero on a twin; '
          '(lpf) alpha from {0, 1, j/2^m, 2^-k, 1-2^-k, uniform}, integer or real inputs: output inside the range of {0, inputs so far} (exact for the dyadic class, 4 ulp otherwise), constant input: monotone approach and '
          'settling no slower than (1-alpha)^k; (hpf) arbitrary prefix then a constant input: |output| non-increasing and bounded by alpha^k of the step response up to the rounding of (output+x)-input, zero = fresh; lpf/hpf member gen / call operator / zero bit-equal to the C forms; '
@@ -253,9 +253,10 @@ PROPS['C16'] = dict(
     assumptions=COMMON_ASSUME + ['tf exactness is asserted only while all partial sums stay below 2^52 (longer histories are cut and counted)',
                                  'hpf decay is judged up to the rounding error of (output + x) - input, which is relative to the input magnitude',
                                  'long double (x87) supplies the exponent range for fc*ts of any two doubles'],
-    units=lambda tier, seed: [Unit('filters', 'exec/C16.cc', ['a.c', 'math.c', 'tf.c'], tape_len=200)],
-    plan={'quick': dict(rc_procs=10, rc_cases=40000, fuzz_procs=6, fuzz_secs=20),
-          'thorough': dict(rc_procs=8, rc_cases=400000, fuzz_procs=8, fuzz_secs=240)},
+    units=lambda tier, seed: [Unit(nm, 'exec/C16.cc', ['a.c', 'math.c', 'tf.c'], defs=config_defs(real), tape_len=200, config='a_real = %s (A_SIZE_REAL=%d)' % (ty, real))
+                              for nm, real, ty in (('filters', 8, 'double'), ('filters-f32', 4, 'float'))],
+    plan={'quick': dict(rc_procs=6, rc_cases=40000, fuzz_procs=3, fuzz_secs=20),
+          'thorough': dict(rc_procs=6, rc_cases=400000, fuzz_procs=4, fuzz_secs=240)},
     tolerances={'lpf_range': '0 (dyadic alpha, integer inputs, <= 8 steps) else 4 ulp of the largest input', 'generators': '4 ulp of the long double formula'},
     technique='property-based testing: exact integer reference model for the transfer function plus metamorphic relations (linearity, time invariance, zero = fresh), range/monotonicity invariants for the RC filters; rapidcheck tapes + libFuzzer under ASan',
     level_text='generated orders, coefficients and input histories against an exact integer recurrence; filters and generators against invariants and the long double formula; sampling, not proof',
